@@ -620,6 +620,9 @@ pub fn handle_xreadgroup(storage: &Arc<StorageEngine>, db: usize, parts: &[RespF
     let num_keys = remaining / 2;
     let mut results = Vec::new();
     
+    // Resolve and validate every key/ID pair before anything is delivered: a request that is
+    // refused must not already have moved entries into the consumer's pending list
+    let mut targets = Vec::new();
     for j in 0..num_keys {
         let key = match &parts[i + j] {
             RespFrame::BulkString(Some(bytes)) => bytes.as_ref(),
@@ -650,6 +653,14 @@ pub fn handle_xreadgroup(storage: &Arc<StorageEngine>, db: usize, parts: &[RespF
             }
         };
         
+        if stream.get_consumer_group(&group_name).is_none() {
+            return Ok(RespFrame::error(format!("NOGROUP No such consumer group {} for stream", group_name)));
+        }
+        
+        targets.push((key, stream, after_id));
+    }
+    
+    for (key, stream, after_id) in targets {
         // Read entries for the group
         match stream.read_group(&group_name, &consumer_name, after_id, count, noack) {
             Ok(entries) if !entries.is_empty() => {
